@@ -1325,6 +1325,9 @@ impl Scenario for C10 {
             .count();
         so && up >= 2
     }
+    fn label(_plan: &Plan) -> String {
+        "FXRates history".into()
+    }
     fn rule() -> String {
         "one evaluation = one seeded history (setup market of 2..12 currencies as a random/chain/star tree with float, Dual and Dual2 quotes; then 4..26 steps of update / set_ad_order / refused update (unknown pair, late settlement failure) / clone-to-replica) executed against the real FXRates with a full n^2 probe (value, names, gradient, Hessian vs closed form and reference AD) after every step. Distinct = distinct plan digest; non-trivial = the history contains an order change and at least two updates.".into()
     }
